@@ -227,6 +227,8 @@ def one_builder(case, rng):
     weights = case["bweights"]
     r = run_under(SimRandom(SEEDED, seed=3), EoN.nonMarkov_directed_percolate_network_with_timing, G,
                   tabs.sir_trans_time, tabs.sir_rec_time, weights=weights)
+    if r.status != "exc" and r.status != "done":
+        return []        # not under the harness's control (seam limit): never a verdict
     if r.status != "done":
         return [V("crash", "percolate_with_timing/exception", "%r" % (r,), case)]
     H = r.value
@@ -252,6 +254,8 @@ def one_builder(case, rng):
     sim = SimRandom(SEEDED, seed=case["seam"]["seed"])
     r = run_under(sim, EoN.directed_percolate_network, G, case["tau"], case["gamma"])
     name = "directed_percolate_network"
+    if r.status != "exc" and r.status != "done":
+        return []        # not under the harness's control (seam limit): never a verdict
     if r.status != "done":
         return [V("crash", "%s/exception" % name, "%r" % (r,), case)]
     H = r.value
@@ -279,6 +283,8 @@ def one_builder(case, rng):
         kw["initial_recovereds"] = R0
     r = run_under(SimRandom(SEEDED, seed=case["seam"]["seed"] + 1), EoN.get_infected_nodes, G, case["tau"], case["gamma"], **kw)
     name = "get_infected_nodes"
+    if r.status != "exc" and r.status != "done":
+        return []        # not under the harness's control (seam limit): never a verdict
     if r.status != "done":
         return [V("crash", "%s/exception" % name, "%r" % (r,), case)]
     got = set(r.value)
